@@ -467,6 +467,10 @@ def run_r6(ctx, rule):
                 e = sy.rvalue(s["rv"])
                 if mentions(e, lambda x: x[0] == "bin" and x[1] == "Shr" and x[3] in (("c", 7), ("cast", "IntToInt", ("c", 7), "u32")) ):
                     ok = True
+                # or, group by group: `(group << shift) >> shift != group`
+                for a, b in ((e[2], e[3]), (e[3], e[2])):
+                    if a[0] == "bin" and a[1] == "Shr" and a[2][0] == "bin" and a[2][1] == "Shl" and strip_bb(a[2][3]) == strip_bb(a[3]) and strip_bb(a[2][2]) == strip_bb(b):
+                        ok = True
     rule.check(ok, "binary_uint/shift-back", "binary_uint rejects a value whose shifted-in bits do not shift back out", f.loc())
 
 
